@@ -49,8 +49,8 @@ LEAN = {"module": "Pygom.Props.C16",
                      "Pygom.C16.foreign_retry_breaks_counterexample", "Pygom.C16.mean_is_mean",
                      "Pygom.C16.first_wait_is_min_of_draws", "Pygom.C16.different_first_wait_different_path",
                      "Pygom.C16.different_streams_same_output_counterexample"]}
-BUDGET = {"quick": {"stoch": 150, "param": 90},
-          "thorough": {"stoch": 1800, "param": 1000, "max_steps": 1500, "steps": [30, 80, 200, 600]}}
+BUDGET = {"quick": {"stoch": 320, "param": 180},
+          "thorough": {"stoch": 1600, "param": 1200, "max_steps": 1000, "steps": [30, 80, 200, 400]}}
 RULE = ("serial calls only (parallel=False). STOCH cases: bounded-rate event models of the shared generator (1-5 states, 1-5 events, "
         "all API routes, derived parameters), integer initial states, x {exact, adaptive tau, fixed tau with steps large enough to be "
         "rejected by the limits}, n = 1..6 iterations, horizon as number / one-element list / grid (list, tuple, array), 30% with "
@@ -85,6 +85,13 @@ PY_RANDOM = ["random", "uniform", "gauss", "normalvariate", "expovariate", "rand
 
 
 # ----------------------------------------------------------------------------- recorder
+def _from_symbolic(frame):
+    """the `random` module used from inside sympy / mpmath (numeric equality tests while an expression is compiled) is not a
+    draw of the simulation"""
+    name = frame.f_globals.get("__name__", "") if frame is not None else ""
+    return name.startswith("sympy") or name.startswith("mpmath")
+
+
 class Recorder:
     """records every call into numpy's global generator and every use of another source while active"""
 
@@ -147,7 +154,8 @@ class Recorder:
                         pass
                 else:
                     def f(*a, _o=orig, _n=name, **k):
-                        rec.foreign.append("random.%s()" % _n)
+                        if not _from_symbolic(sys._getframe(1)):
+                            rec.foreign.append("random.%s()" % _n)
                         return _o(*a, **k)
                     self._patch(pyrandom, name, f)
         return self
@@ -156,7 +164,8 @@ class Recorder:
         rec = self
 
         def __init__(self_, *a, **k):
-            rec.foreign.append(label + "(...)")
+            if not (label.startswith("random.") and _from_symbolic(sys._getframe(1))):
+                rec.foreign.append(label + "(...)")
             try:
                 orig.__init__(self_, *a, **k)
             except TypeError:
@@ -573,8 +582,8 @@ def run_stoch(case):
     if not stream or stream[0][0] != "seed":
         mm("recorder", "the harness's own seed call was not recorded first")
     body = stream[1:]
-    for f in rec.foreign:
-        mm("foreign-source", "%s was constructed / used during solve_stochast" % f)
+    for f in sorted(set(rec.foreign)):
+        mm("foreign-source", "%s was constructed / used %d times during solve_stochast" % (f, rec.foreign.count(f)))
     for s_ in body:
         if s_[0] == "seed":
             mm("reseed", "np.random.%s called during solve_stochast" % s_[1])
@@ -666,11 +675,15 @@ def run_stoch(case):
                 if [Fraction(v) for v in r["cur"]] != [Fraction(v) for v in after]:
                     mm("params-after-call", "model %s code %s" % ([float(Fraction(v)) for v in r["cur"]], after))
         # coincidence probability of the recorded run (for the different-seed oracle)
+        # (a recorded waiting time is continuous and is part of the returned times; with fixed parameters a second run follows
+        # the same path with probability prod pmf(count; mean); with stochastic parameters its means differ: pmf(k; m) <= pmf(k; k))
         for kind, par, val in body:
-            if kind in ("expo", "param"):
+            if kind == "expo":
                 continuous = True
             elif kind == "pois" and par > 0:
-                logp += val * math.log(par) - par - math.lgamma(val + 1)
+                m_ = float(val) if case.get("pdict") else par
+                if m_ > 0:
+                    logp += val * math.log(m_) - m_ - math.lgamma(val + 1)
     elif tr.error is None:
         mm("trace:jumps", "%d _jump calls recorded for %d iterations" % (len(tr.jumps), n))
 
@@ -731,6 +744,7 @@ def fresh_param_model(case, rec=None):
     model = pymodel.build(case["spec"], backend="lambda")
     model.parameters = {k: float(v) for k, v in case["params"].items()}
     model.initial_values = (np.array(case["x0"], float), np.float64(case["sim"]["t0"]))
+    quiet(model.integrate, np.array(case["grid"], float))      # compile now (sympy), outside every recorded run
     model.parameters = build_pdict(case["pdict"], rec)
     return model
 
@@ -793,6 +807,21 @@ def _run_param(case):
     if err0 is not None or not np.all(np.isfinite(sol0)) or float(np.max(np.abs(sol0))) > bound:
         return {"nontrivial": False, "mismatches": [], "violations": [], "tags": tags + ["unstable-integration-skipped"]}
 
+    # solve_determ of a model whose parameters are NOT stochastic: one plain integration, no draw (solve_determ_fixed_no_draws)
+    recF = Recorder()
+    with recF:
+        np.random.seed(seed)
+        st0 = np.random.get_state()
+        solF, errF = quiet(m0.solve_determ, np.array(case["grid"], float), n, parallel=False, full_output=True)
+        st1 = np.random.get_state()
+    if errF is None:
+        if len(recF.stream()) != 1 or recF.foreign or not (np.array_equal(st0[1], st1[1]) and st0[2] == st1[2]):
+            mm("fixed-params:draws", "solve_determ with fixed parameters drew from a generator: %s %s" % (recF.stream()[1:4], recF.foreign[:3]))
+        ref_, _e = quiet(m0.integrate, np.array(case["grid"], float))
+        if isinstance(solF, tuple) or not same(solF, ref_):
+            mm("fixed-params:result", "solve_determ with fixed parameters is not integrate(t)")
+        tags.append("fixed-params-solve_determ")
+
     rec = Recorder()
     mA = fresh_param_model(case, rec)
     cur0 = [float(v) for v in mA._paramValue]
@@ -812,8 +841,8 @@ def _run_param(case):
         return {"nontrivial": False, "mismatches": [], "violations": [], "tags": tags + ["unstable-integration-skipped"]}
     stream = rec.stream()
     body = stream[1:]
-    for f in rec.foreign:
-        mm("foreign-source", "%s was constructed / used during %s" % (f, A["entry"]))
+    for f in sorted(set(rec.foreign)):
+        mm("foreign-source", "%s was constructed / used %d times during %s" % (f, rec.foreign.count(f), A["entry"]))
     for s_ in body:
         if s_[0] == "seed":
             mm("reseed", "np.random.%s called during %s" % (s_[1], A["entry"]))
